@@ -124,8 +124,11 @@ func (n *Net) SendFunc(self uint16) func(msgType uint8, topic []byte, msg []byte
 			class = 0
 		}
 		for _, dst := range to {
+			// like the bundled transport (net.SocketRemoteParties.Send enqueues what it is given), the
+			// network keeps the caller's slices until the packet is delivered: a sender that re-uses
+			// its buffer for the next message overwrites what is still queued
 			p := &Packet{From: self, To: dst, Type: msgType,
-				Topic: append([]byte(nil), topic...), Data: append([]byte(nil), msg...),
+				Topic: topic, Data: msg,
 				Step: n.step, Class: class, Seq: len(n.pending)}
 			n.pending = append(n.pending, p)
 		}
